@@ -39,6 +39,7 @@ type Sorts struct {
 	anon      int
 	prog      *Program
 	needSolid bool
+	needRef   bool
 }
 
 type structInfo struct {
@@ -416,6 +417,22 @@ func (s *Sorts) prelude() string {
 			}
 		}
 		b.WriteString("))\n")
+	}
+	// iface_ref: the reference held by an interface value (0 when it holds no pointer or slice)
+	if s.needRef {
+		b.WriteString("(define-fun iface_ref ((v Iface)) Int ")
+		n := 0
+		for _, c := range s.consList {
+			switch c.t.Underlying().(type) {
+			case *types.Pointer, *types.Map, *types.Chan:
+				fmt.Fprintf(&b, "(ite ((_ is %s) v) (%s v) ", c.name, c.sel)
+				n++
+			case *types.Slice:
+				fmt.Fprintf(&b, "(ite ((_ is %s) v) (sl_ref (%s v)) ", c.name, c.sel)
+				n++
+			}
+		}
+		b.WriteString("0" + strings.Repeat(")", n) + ")\n")
 	}
 	// implements predicates
 	sort.Strings(s.implOrder)
